@@ -1,4 +1,4 @@
-import Pocket.Lemmas.Burn
+import Pocket.Lemmas.EventOrder
 /- `Event::from_json` with additional unknown members (C01): the seven NIP-01 members in any order
 (values as `as_json` renders them) interleaved with any number of unknown members `"key" : value` whose
 value is ANY JSON value nested at most 64 deep and whose key is any JSON string other than the seven
